@@ -1,4 +1,56 @@
-import JV.Model.Cbor
+/-
+  C06 — binary formats round-trip the data model.
+
+  Proved here (CBOR, the data-model core): Model JV.Model.Cbor.encode = what `encode_cbor` writes for
+  null / bool / every int64 and uint64 / doubles (incl. the "float32 when exact" shortcut) / UTF-8 text
+  / byte strings / arrays / maps at any nesting — tied to the real encoder BYTE FOR BYTE by the
+  `cbor-encoder-model` correspondence stream. For every such value the RFC 8949 reference decoder
+  (JV.Spec.Cbor, the same one the real decoder is compared with in C07) reads the bytes back as exactly
+  that value and leaves any following bytes untouched. Length and integer boundaries (23/24, 2^8,
+  2^16, 2^32, 2^64) are inside the theorem, not sampled.
+
+  Decided per case on the real code, not proved: semantic tags, string packing (stringref; D26 was
+  found there and repaired), typed arrays, and the MessagePack / UBJSON / BSON round trips under
+  their documented mappings (see the check's streams).
+-/
+import JV.Proofs.CborRoundtrip
 namespace JV.Props.C06
-theorem placeholder : True := trivial
+open JV Model.Cbor Spec.Cbor
+
+/-- encode then decode is the identity on the CBOR core, for all values, whatever follows the item -/
+theorem cbor_roundtrip (v : CV) (hv : OK v) (rest : Bytes) :
+    ∃ fuel, item fuel none (encode v ++ rest) = .ok (toBV v) rest :=
+  ⟨need v, enc_dec v rest (need v) hv (Nat.le_refl _)⟩
+
+/-- … and more fuel never changes the answer (the reference decoder's fuel is an artefact, not a limit) -/
+theorem cbor_roundtrip_any_fuel (v : CV) (hv : OK v) (rest : Bytes) (fuel : Nat) (hf : need v ≤ fuel) :
+    item fuel none (encode v ++ rest) = .ok (toBV v) rest :=
+  enc_dec v rest fuel hv hf
+
+/-- the head (major type + argument) written for any length or integer below 2^64 is read back exactly:
+    every width boundary is covered by the case split, none is sampled -/
+theorem header_roundtrip (major n : Nat) (hm : major < 8) (hn : n < 2 ^ 64) (rest : Bytes) :
+    ∃ ib tail, writeHead major n ++ rest = ib :: tail ∧ ib / 32 = major ∧ readArg (ib % 32) tail = some (n, rest) := by
+  obtain ⟨ib, tail, h1, h2, _, h4⟩ := head_read major n hm hn rest
+  exact ⟨ib, tail, h1, h2, h4⟩
+
+/-- the float32 shortcut (`(float)val`, `(double)valf == val`) loses nothing: every double outside the
+    binary32-subnormal exponent band satisfies the side condition of `cbor_roundtrip` -/
+theorem float32_shortcut_lossless (b : Nat) (hb : b < 2 ^ 64)
+    (hsub : ¬ (874 ≤ b / 2 ^ 52 % 2048 ∧ b / 2 ^ 52 % 2048 ≤ 896)) : DoubleOK b :=
+  doubleOK_outside_f32_subnormals b hb hsub
+
+/-- NaNs are never narrowed (they compare unequal to everything), so they travel as 64-bit patterns, bit for bit -/
+theorem nan_not_narrowed (b : Nat) (he : b / 2 ^ 52 % 2048 = 2047) (hm : b % 2 ^ 52 ≠ 0) : narrowF32 b = none := by
+  simp [narrowF32, he, hm]
+
+/-! ### non-vacuity -/
+def sample : CV := .map [([97], .arr [.int 23, .int 24, .int (-1), .int (2 ^ 64 - 1), .int (-(2 ^ 63))]),
+                          ([195, 169], .str [240, 159, 152, 128]), ([98], .bytes [0, 255]), ([99], .map []), ([100], .null)]
+example : OK sample := by
+  simp [sample, OK, OKList, OKMembers, Spec.Rfc8259.validUtf8]
+example : encode (.arr [.int 23, .int 24, .str [97]]) = [0x83, 0x17, 0x18, 0x18, 0x61, 0x61] := by decide
+example : encodeDouble 0x3ff8000000000000 = [0xfa, 0x3f, 0xc0, 0, 0] := by decide
+example : encodeDouble 0x3ff199999999999a = [0xfb, 0x3f, 0xf1, 0x99, 0x99, 0x99, 0x99, 0x99, 0x9a] := by decide
+
 end JV.Props.C06
